@@ -38,11 +38,17 @@ PROPS = {
         assumptions=["stdio stream = byte array; single-threaded; no malloc failure; file offsets stay below 2^31; the file is open with write access"],
     ),
     "C17": dict(
-        lean_props=["H4.Props.C17"],
-        engines=[E("crash", "e_crash.c", model=None, wrap=True, quick=dict(cases=60, chunk=4, timeout=1200), thorough=dict(cases=600, seeds=2, chunk=8, timeout=3000))],
+        lean_props=["H4.Props.C17", "H4.Props.C17Open"],
+        # cases 0..10 the append-only workloads alone, 11..21 each with another (read-only) id of the process on the file, 22..32 each in a context
+        # of the other families (idle writer, earlier sessions, Hcache settings), 33..66 every listed context once around a random H-level session,
+        # then random H-level sessions in listed / random contexts with context operations in mid-session
+        engines=[E("crash", "e_crash.c", model="crash", wrap=True, quick=dict(cases=100, chunk=4, timeout=1200), thorough=dict(cases=900, seeds=2, chunk=8, timeout=3000))],
         trusted_base=["stdio interposition (harness/wrap.h): unbuffered stream, each library write is one physical write",
-                      "the write log of the Lean model (H4.DD.Wr) is placed by reading the C; the engine checks the implementation's log directly (L2: classification of writes, not their bytes)"],
-        assumptions=["each library-level write is atomic and ordered (stdio on one stream)"],
+                      "the write log of the Lean model (H4.DD.Wr) is placed by reading the C; the engine checks the implementation's log directly (L2: classification of writes, not their bytes)",
+                      "the flags of the file record (refcount, write access, cache) are read out of filerec_t, found by path in the file-id group (HAsearch_atom + HPcompare_filerec_path), "
+                      "after every open/close/Hcache call around a session and at the first physical write of the session; h4model recomputes them (H4.DD.OpenTab)"],
+        assumptions=["each library-level write is atomic and ordered (stdio on one stream)",
+                     "default descriptor caching = the program never calls Hcache(.., FALSE): checked on the implementation at the start of every session (T crash sopen), not assumed"],
     ),
     "C03": dict(
         lean_props=["H4.Props.C03", "H4.Props.C03Fn", "H4.Props.C03Fn2"],
